@@ -77,4 +77,61 @@ impl<T> RawTable<T> {
     {
         unimplemented!()
     }
+    // RawTable::bucket_index: pointer difference; the bucket must be one of this table's
+    #[verifier::external_body]
+    pub fn bucket_index(&self, bucket: &Bucket<T>) -> (r: usize)
+        requires 0 <= bucket.index@ < self.table.nb(),
+        ensures r as int == bucket.index@,
+    {
+        unimplemented!()
+    }
+    pub open spec fn spec_is_bucket_full(&self, index: usize) -> bool { self.table.ctrl@[index as int] < 0x80u8 }
+    #[verifier::when_used_as_spec(spec_is_bucket_full)]
+    pub fn is_bucket_full(&self, index: usize) -> (r: bool)
+        requires self.table.shape(), index < self.table.nb(),
+        ensures r == (self.table.ctrl@[index as int] < 0x80u8), r == self.spec_is_bucket_full(index),
+    {
+        self.table.ctrl_get(index).0 < 0x80
+    }
+}
+impl<T> Bucket<T> {
+    // Bucket::read / Bucket::drop: the element itself is not modelled in this unit (R: drop ledger)
+    #[verifier::external_body]
+    pub fn read(&self) -> (r: T) { unimplemented!() }
+    #[verifier::external_body]
+    pub fn drop(&self) { unimplemented!() }
+}
+impl RawTableInner {
+    // contract proved in unit `ctrl` on the extracted text of erase
+    #[verifier::external_body]
+    pub fn erase(&mut self, index: usize)
+        requires
+            old(self).shape(), old(self).mirrored(), index < old(self).nb(),
+            old(self).ctrl@[index as int] < 0x80,
+            old(self).items > 0,
+            old(self).growth_left < usize::MAX,
+        ensures
+            final(self).shape(), final(self).mirrored(),
+            final(self).bucket_mask == old(self).bucket_mask,
+            final(self).items == old(self).items - 1,
+            final(self).ctrl@[index as int] == 0xFFu8 || final(self).ctrl@[index as int] == 0x80u8,
+            final(self).growth_left == old(self).growth_left + (if final(self).ctrl@[index as int] == 0xFFu8 { 1int } else { 0int }),
+            final(self).ctrl@ == old(self).ctrl@.update(index as int, final(self).ctrl@[index as int]).update(old(self).mirror_index(index as int), final(self).ctrl@[index as int]),
+    {
+        unimplemented!()
+    }
+    // contract proved in unit `ctrl` on the extracted text of set_ctrl
+    #[verifier::external_body]
+    pub fn set_ctrl(&mut self, index: usize, ctrl: Tag)
+        requires old(self).shape(), index < old(self).nb(), valid_byte(ctrl.0),
+        ensures
+            final(self).shape(),
+            final(self).bucket_mask == old(self).bucket_mask,
+            final(self).items == old(self).items,
+            final(self).growth_left == old(self).growth_left,
+            final(self).ctrl@ == old(self).ctrl@.update(index as int, ctrl.0).update(old(self).mirror_index(index as int), ctrl.0),
+            old(self).mirrored() ==> final(self).mirrored(),
+    {
+        unimplemented!()
+    }
 }
